@@ -74,8 +74,11 @@ def tasks(tier):
                 if p - nb - 2 >= nb + 2: ts.append({'p': pn, 'op': op, 'mode': 'large'})
             elif op == 'complement_256':
                 nb = p.bit_length()
-                maxl = nb if tier == 'thorough' else min(16, nb)
-                ts.append({'p': pn, 'op': op, 'mode': 'bits', 'lo': 0, 'hi': maxl})
+                # symbolic operands of every bit length <= 16 (longer symbolic operands exceed the solver's time limit: measured, 17 bits
+                # already times out); thorough adds the concrete boundary values 2^k-1, 2^k, 2^k+1 for every k
+                maxl = min(16, nb)
+                for lo_ in range(0, maxl + 1, 8): ts.append({'p': pn, 'op': op, 'mode': 'bits', 'lo': lo_, 'hi': min(maxl, lo_ + 7)})
+                if tier == 'thorough': ts.append({'p': pn, 'op': op, 'mode': 'classes', 'powers': True})
                 ts.append({'p': pn, 'op': op, 'mode': 'classes'})
             else:
                 ts.append({'p': pn, 'op': op, 'mode': 'full'})
@@ -168,9 +171,12 @@ def run_task(task):
         nb = p.bit_length()
         run(a, b, [a >= 0, a < p, b >= nb + 2, b <= p - nb - 2], lambda: O.shift_cases(op, a, b, p)[-4:], 'large')
     elif mode == 'bits':
-        run(a, None, [a >= 0, a < min(p, 2 ** task['hi'])], lambda: O.symbolic(op, a, None, p, ctx), 'bits<=%d' % task['hi'])
+        lo_v = 0 if task['lo'] == 0 else 2 ** (task['lo'] - 1)          # bit lengths lo..hi
+        run(a, None, [a >= lo_v, a < min(p, 2 ** task['hi'])], lambda: O.symbolic(op, a, None, p, ctx), 'bits %d..%d' % (task['lo'], task['hi']))
     elif mode == 'classes':
-        for val in sorted({0, 1, p // 2, p // 2 + 1, p - 1, p - 2}):
+        vals = {0, 1, p // 2, p // 2 + 1, p - 1, p - 2}
+        if task.get('powers'): vals = {2 ** k + d for k in range(0, p.bit_length() + 1) for d in (-1, 0, 1)}
+        for val in sorted(vals):
             if 0 <= val < p:
                 run(val, None, [], lambda val=val: O.symbolic(op, z3.IntVal(val), None, p, ctx), 'a=%d' % val)
     return {'stats': common.pack_stats(stats), 'violations': [common.pack_violation(v) for v in viols], 'p': p}
@@ -262,7 +268,7 @@ def main(tier, replay=None):
         rep.inconclusive.append('%d solver models did not reproduce natively (uninterpreted-symbol artefacts?): e.g. %s' % (len(rep.nonrepro), json.dumps(rep.nonrepro[0], default=str)[:400]))
     nat.close()
     pr = prog()
-    rep.bounds = {'operands': 'all a,b in [0,p)', 'primes': sorted(set(t['p'] for t in ts)), 'complement_256': 'operands < 2^16 plus classes {0,1,p/2,p/2+1,p-2,p-1}' if tier == 'quick' else 'all operands (every bit length)',
+    rep.bounds = {'operands': 'all a,b in [0,p)', 'primes': sorted(set(t['p'] for t in ts)), 'complement_256': 'operands < 2^16 plus classes {0,1,p/2,p/2+1,p-2,p-1}' if tier == 'quick' else 'operands < 2^16 plus classes {0,1,p/2,p/2+1,p-2,p-1} and every 2^k-1, 2^k, 2^k+1 below p',
                   'out_of_field': 'a,b < 2^256: panic / unbounded-work obligations only', 'pow_exponent_limit': '4*bits(p)+64', 'tasks': len(ts)}
     rep.assumptions = ['p is one of the listed primes (concrete)', 'mod_inverse/modpow/bitwise ops on Z are shared uninterpreted symbols in code and oracle (sat answers are replayed natively)',
                        'library models: ' + ', '.join(sorted(rep.models_used))[:600], 'MIR of nightly rustc is the semantics of the source', 'source hash ' + pr.hashes['algebra']]
